@@ -1,13 +1,19 @@
 SPEC = {
     "id": "C01",
     "level": "proof",
-    "theorem_modules": ["GluonModel.Theorems.C01", "GluonModel.Theorems.SysC01"],
+    "theorem_modules": ["GluonModel.Theorems.C01", "GluonModel.Theorems.C01Close", "GluonModel.Theorems.SysC01"],
     "correspondences": [
         {"dialect": "flush", "quick_n": 6000, "thorough_n": 200000, "judge": "judge-c01-flush"},
         {"dialect": "merge", "quick_n": 10000, "thorough_n": 400000, "judge": "judge-c01-merge"},
         {"dialect": "sys", "quick_n": 250, "thorough_n": 5000, "judge": "judge-c01-sys"},
     ],
     "oracles": [
+        # hist, error paths (harness/hfc_conn.go, hfc_hist.go): every fourth history runs against a connector whose NEXT
+        # call of a chosen kind fails on request (X FAILCONN / X FAILNEXT <kind> [n] / X FAILCLEAR) and sends every command
+        # kind once through [other sessions' changes delivered, not flushed -> the session's own CLOSE / EXPUNGE / UID
+        # EXPUNGE / STORE / COPY / MOVE / APPEND / body FETCH, answered NO -> PROBE -> NOOP -> PROBE -> X CONVERGE]: a
+        # failed command may not have changed the view silently; a CLOSE answered NO leaves the mailbox selected.
+        # Directed instances: corpus/C01/hfc-*.hist, corpus/C05/hfc-*.hist.
         {"name": "hist", "quick_args": ["-props", "C01", "-n", "25", "-steps", "40"],
          "thorough_args": ["-props", "C01", "-n", "400", "-steps", "70", "-profile", "hold,samebox"], "timeout": 3000},
     ],
@@ -16,6 +22,7 @@ SPEC = {
         "hand-written model GluonModel/Model/{Flags,Snap,Resp,Responder}.lean of responder.handle / popResponders / State.flushResponses / response.Merge, tied by the `flush` and `merge` correspondence dialects (differential testing, not proof)",
         "client model GluonModel/Spec/Mirror.lean (what untagged EXISTS/EXPUNGE/FETCH/RECENT let a client reconstruct)",
         "facts translator harness/facts_snapmut.go (go/ast + go/types) for the table of snapshot-mutating call sites",
+        "facts translator harness/facts_hfc.go (go/ast) for the calls a session handler makes after marking its context as CLOSE (theorem silent_flush_then_deselect)",
         "verif hooks internal/state/verif_export.go, internal/response/verif_export.go",
     ],
     "assumptions": [
@@ -23,6 +30,7 @@ SPEC = {
         "value-based model: aliasing of Go maps/slices (a FlagSet shared by reference) is not modelled; the wire-level oracle covers it",
         "wire rendering of responses (String()) and the direct FETCH path of Mailbox.Fetch are covered by the wire-level oracle, not by theorem",
         "theorems handle_explicable_partial / flush_explicable_partial carry the named hypotheses ExistsAtEnd / AllAtEnd (an EXISTS from another session is added at the end), no CLOSE context, no own-.SILENT responder; the excluded cases are witnessed by handle_explicable_counterexample and flush_close_panic_witness",
+        "error paths: flush_close_silent speaks about a CLOSE that deselects; that nothing fallible stands between the silent flush and the deselection is the regenerated fact silent_flush_then_deselect (Theorems/C01Close.lean); what a command that is answered NO (connector failure, database failure) did to the view is not in the Lean models - the wire-level oracle covers it (connector failures only: hfc_hist.go)",
     ],
     "explanation": "Lean theorems: Merge is sound for every explicable stream; every responder keeps the snapshot invariant; inside the named hypotheses every flush of every queue leaves the client's mirror in agreement with the snapshot; regenerated table of snapshot-mutating call sites is decided against the expected uses. Model tied to the real flushResponses/Merge by differential testing; property judged on the implementation's answers.",
 }
